@@ -235,19 +235,40 @@ impl Monitor for C19 {
             d[..4].copy_from_slice(&b);
             Tuple { v6: false, src: s, dst: d, sp, dp, flow: (0, 0), scope: (0, 0) }
         } else {
-            let (a, b) = rand_v6_pair(rng);
+            let (mut a, mut b) = rand_v6_pair(rng);
             let (f, sc) = (rng.next() as u32, rng.next() as u32);
             let same = a == b && sp == dp;
             let zero = rng.chance(1, 4);
-            Tuple {
-                v6: true,
-                src: bytes_of(a),
-                dst: bytes_of(b),
-                sp,
-                dp,
-                flow: if zero { (0, 0) } else if same { (f, f) } else { (f, rng.next() as u32) },
-                scope: if zero { (0, 0) } else if same { (sc, sc) } else { (sc, rng.next() as u32) },
+            let mut flow = if zero { (0, 0) } else if same { (f, f) } else { (f, rng.next() as u32) };
+            let mut scope = if zero { (0, 0) } else if same { (sc, sc) } else { (sc, rng.next() as u32) };
+            if !same && rng.chance(1, 6) {
+                // relations between what the socket address carries besides the IP and the IP
+                // itself: a scope id / flow label that repeats one of the address's 16-bit groups
+                // or a port (link-local addresses with the interface index embedded in the second
+                // group, as some stacks report them, among them)
+                if rng.coin() {
+                    a[0] = *rng.pick(&[0xfe80u16, 0xfe80, 0xfebf, 0xff02, 0xfec0]);
+                }
+                if rng.coin() {
+                    b[0] = *rng.pick(&[0xfe80u16, 0xfe80, 0xff02]);
+                }
+                let g = rng.below(8) as usize;
+                if a[g] == 0 && rng.coin() {
+                    a[g] = 1 + rng.below(64) as u16;
+                }
+                match rng.below(5) {
+                    0 => scope.0 = a[g] as u32,
+                    1 => scope.1 = b[g] as u32,
+                    2 => scope = (a[1] as u32, b[1] as u32),
+                    3 => flow = (a[g] as u32, b[g] as u32),
+                    _ => scope = (sp as u32, dp as u32),
+                }
+                if a[1] == 0 && rng.coin() {
+                    a[1] = 1 + rng.below(32) as u16;
+                    scope.0 = a[1] as u32;
+                }
             }
+            Tuple { v6: true, src: bytes_of(a), dst: bytes_of(b), sp, dp, flow, scope }
         };
         judge(&t, rec);
         // one tuple in four is followed by related tuples on the same thread (conversions are
